@@ -120,3 +120,19 @@ def dir_cases(tier, seed):
     for i, c in enumerate(cases):
         c["id"] = i + 1
     return cases
+
+
+def file_echo_cases(tier, seed):
+    """Two-request histories over real files with sub-second modification times (C14)."""
+    rng = random.Random(seed)
+    names = ["inm", "ims", "im", "ius", "ir"]
+    cases = []
+    for r in range(0, 6):
+        for S in itertools.combinations(names, r):
+            for mt_ns in (0, 1, 500000000, 999999999):
+                cases.append({"kind": "echo", "echo": list(S), "size": rng.choice([0, 1, 10, 70000]),
+                              "mt_s": 1000000000 + rng.randrange(100000), "mt_ns": mt_ns,
+                              "emethod": rng.choice(["GET", "HEAD"])})
+    for i, c in enumerate(cases):
+        c["id"] = i + 1
+    return cases
